@@ -1,11 +1,10 @@
 /-! Model of `ScopeMetrics.record`, `ScopeMetrics.read`, `ScopeMetrics.metrics(merge=…)` and of the
     `MetricsContext.record` wrapper (`haiway/context/metrics.py`).  (C10)
 
-A metric value is a `State` instance: its class (`ty`), a payload, and its truth value.  `record` tests the
-existing value with `if current := self._metrics.get(metric_type)`, i.e. by *truthiness*: a stored value
-that is falsy (a `State` class defining `__bool__`/`__len__`; plain `State` instances are always truthy) is
-replaced instead of merged.  The model does what the code does; `Props/C10.lean` states the fold law with
-the truthiness spelled out.  User merge functions are arbitrary and may raise. -/
+A metric value is a `State` instance: its class (`ty`) and a payload.  `record` tests the existing value with
+`if (current := self._metrics.get(metric_type)) is not None` (the repaired test: presence, not truthiness – a `State`
+class may define `__bool__`/`__len__`, and a falsy stored value used to be *replaced* instead of merged).  The field
+`truthy` is kept so that theorems can say "whatever its truth value".  User merge functions are arbitrary and may raise. -/
 namespace Haiway.Metrics
 
 structure Val where
@@ -47,11 +46,9 @@ def record (completed : Bool) (s : Store) (v : Val) (m : Merge) : RecOut :=
   if completed then .raised true
   else match get s v.ty with
     | some cur =>
-      if cur.truthy then
-        match m cur v with
-        | .ok r => .stored (put s v.ty r)
-        | .raise e => .raised e
-      else .stored (put s v.ty v)
+      match m cur v with
+      | .ok r => .stored (put s v.ty r)
+      | .raise e => .raised e
     | none => .stored (put s v.ty v)
 
 /-- what the caller of `ctx.record` sees -/
